@@ -92,7 +92,7 @@ pub open spec fn prefix_matches(mb: Metablock, j: int, short: Seq<char>) -> bool
             }
 //@end
 
-//@extract src/verifylib.rs fn:verify_link_signature_thresholds_step props=C02,C14
+//@extract src/verifylib.rs fn:verify_link_signature_thresholds_step props=C02,C13,C14
 //@contract ret=r
 //@include contracts/thresholds_step.rs
 //@before /let mut metablocks = HashMap::new\(\);/
@@ -107,6 +107,13 @@ pub open spec fn prefix_matches(mb: Metablock, j: int, short: Seq<char>) -> bool
                 && step.pub_keys@.contains(k)
                 && pubkeys@.contains_key(k)
                 && signed_by(links@[k], pubkeys@[k]),
+            forall|k: KeyId| #[trigger] metablocks@.contains_key(k) ==> link_counts(*step, links@, pubkeys@, k),
+            forall|i: int| 0 <= i < it.index() ==> (link_counts(*step, links@, pubkeys@, *(#[trigger] it.seq()[i]).0) ==> metablocks@.contains_key(*it.seq()[i].0)),
+            forall|k: KeyId| links@.contains_key(k) ==> exists|i: int| 0 <= i < it.seq().len() && *(#[trigger] it.seq()[i]).0 == k,
+//@after_loop 1
+    proof {
+        assert(metablocks@.dom() =~= counting_links(*step, links@, pubkeys@));
+    }
 //@before /let authorized_key = vec!\[authorized_key\];/
             let ghost ak = *authorized_key;
 //@after /let authorized_key = vec!\[authorized_key\];/
@@ -142,7 +149,8 @@ pub open spec fn prefix_matches(mb: Metablock, j: int, short: Seq<char>) -> bool
             forall|i: int| 0 <= i < it.index() ==> metadata_verified@.contains_key(#[trigger] layout.steps@[i].name),
             forall|name: String| #[trigger] metadata_verified@.contains_key(name) ==> exists|j: int| 0 <= j < layout.steps@.len()
                 && layout.steps@[j].name == name
-                && step_links_ok(layout.steps@[j], links_of(steps_links_metadata@, name), layout.keys@, metadata_verified@[name]@),
+                && step_links_ok(layout.steps@[j], links_of(steps_links_metadata@, name), layout.keys@, metadata_verified@[name]@)
+                && step_links_exact(layout.steps@[j], links_of(steps_links_metadata@, name), layout.keys@, metadata_verified@[name]@),
 //@end
 } // verus!
 fn main() {}
